@@ -31,6 +31,8 @@ def main():
             lines = [l for l in c.stdout.splitlines() if l.startswith(("VIOLATION", "MACHINERY", "KNOWN"))]
             sig = [l.strip() for l in c.stdout.splitlines() if l.strip().startswith("signature:")]
             verdict = {0: "pass", 1: "VIOLATION", 2: "MACHINERY-ERROR"}.get(c.returncode, str(c.returncode))
+            if verdict == "VIOLATION" and not any(l.startswith("VIOLATION") for l in lines):
+                verdict = "MACHINERY-ERROR(no VIOLATION line)"
             result["checks"][i] = {"verdict": verdict, "wall_s": round(time.time() - t0, 1), "first": (sig[0][:300] if sig else (lines[0][:300] if lines else ""))}
             print("%s: %s %s" % (i, verdict, (sig[0][:220] if sig else (lines[0][:220] if lines else ""))))
     finally:
